@@ -126,10 +126,12 @@ impl Model {
 
     /// Label the cause of a wrong verdict.
     fn cause(&self, v: bool) -> &'static str {
-        if self.explained_by(v, true, false) {
-            "local-node-counted"
-        } else if self.explained_by(v, false, true) {
+        // When both explanations fit, prefer the repeats one: it does not involve the local node,
+        // so a verdict is only attributed to "local node counted" when nothing else explains it.
+        if self.explained_by(v, false, true) {
             "repeated-result-counted-twice"
+        } else if self.explained_by(v, true, false) {
+            "local-node-counted"
         } else if self.explained_by(v, true, true) {
             "local-node-and-repeats-counted"
         } else {
